@@ -24,6 +24,93 @@ async fn bootstrap(g: &mut Gen, rng: &mut Rng) {
     let _ = rng;
 }
 
+
+/// the process stops and is started again on the same database; continuation; S on the real store
+async fn continue_and_judge(g: &mut Gen, sink: &mut Sink, notes: &mut std::collections::BTreeMap<String, u64>, p: usize, fired: bool, interrupted: Option<usize>, tag_prefix: &str) {
+    let certs_at_crash = g.w.last_cert_count;
+    // the process stops and is started again on the same database
+    g.w.restart().await;
+    // continuation: productive rounds, a new beacon, more rounds
+    for _ in 0..3 {
+        g.w.tick().await;
+    }
+    for round in 0..3 {
+        for _ in 0..5 {
+            g.drive().await;
+        }
+        if round < 2 {
+            g.w.immutable_up().await;
+        }
+    }
+    // … and an epoch change: everybody registers for the next key, the epoch moves, two more rounds. The
+    // aggregator must certify in the new epoch without manual repair (a round lost for good in the
+    // interrupted epoch shows up here as an epoch gap at the latest).
+    let certs_before_epoch_change = g.w.last_cert_count;
+    let e_now = g.w.time_point().await.epoch.0;
+    for q in 0..g.w.n() {
+        g.w.register(q, e_now + 1).await;
+    }
+    g.w.epoch_up(1).await;
+    for _ in 0..3 {
+        g.w.tick().await;
+    }
+    for _ in 0..2 {
+        for _ in 0..5 {
+            g.drive().await;
+        }
+    }
+    let certs_after_epoch_change = g.w.last_cert_count;
+    g.w.check_store("after crash, restart and continuation").await;
+    let tag = format!("{}{}{}", tag_prefix, CRASH_POINTS[p], if fired { "" } else { ":not-fired" });
+    let req = g.w.request("c15.run");
+    let idx = sink.case(&tag, &req, &g.w.observation());
+    let healthy = !matches!(g.w.tester.runtime.state_label(), "blocked-epoch-gap" | "blocked-no-genesis");
+    let mut fails: Vec<(String, String)> = vec![];
+    for (c, what) in &g.w.sfails {
+        if c == "double-certificate" {
+            // precise classification of the known observation
+            let is_interrupted = interrupted.map(|e| what.starts_with(&format!("entity {} ", e))).unwrap_or(false);
+            if fired && p == 1 && is_interrupted {
+                *notes.entry("note.double_certificate_after_crash_between_insert_and_flag".into()).or_insert(0) += 1;
+                continue;
+            }
+        }
+        fails.push((c.clone(), what.clone()));
+    }
+    if fired {
+        // the interrupted round is completed or superseded
+        if let Some(e) = interrupted {
+            let d = g.w.last_dump.clone();
+            let disc = mithril_common::entities::SignedEntityTypeDiscriminants::from(&g.w.entities[e]);
+            let completed = d.certs.iter().any(|c| c.ent == Some(e));
+            let superseded = d.certs.iter().any(|c| c.ent.map(|x| x > e && mithril_common::entities::SignedEntityTypeDiscriminants::from(&g.w.entities[x]) == disc).unwrap_or(false));
+            if !completed && !superseded {
+                fails.push(("round-lost".into(), format!("entity {} ({:?}), interrupted at {}, is neither certified nor superseded by a later certified beacon of its type after restart, three productive rounds, an epoch change and two more rounds", e, g.w.entities[e], CRASH_POINTS[p])));
+            }
+        }
+        if !healthy {
+            fails.push(("blocked-after-crash".into(), format!("after the crash at {}, restart and an epoch change the aggregator is in state {}", CRASH_POINTS[p], g.w.tester.runtime.state_label())));
+        } else if certs_after_epoch_change <= certs_before_epoch_change {
+            fails.push(("no-progress".into(), format!("no certificate was produced in the epoch following the crash at {} ({} certificates before and after the epoch change)", CRASH_POINTS[p], certs_before_epoch_change)));
+        }
+    }
+    if healthy && fired && g.w.last_cert_count <= certs_at_crash {
+        fails.push(("no-progress".into(), format!("no certificate was produced after the crash at {} and restart ({} certificates before and after the continuation)", CRASH_POINTS[p], certs_at_crash)));
+    }
+    if fired {
+        *notes.entry(format!("fired.{}", CRASH_POINTS[p])).or_insert(0) += 1;
+    }
+    // certified entities without artifact (not a clause of C15; recorded)
+    let d = g.w.last_dump.clone();
+    let without = d.certs.iter().filter(|c| c.ent.is_some() && !d.ses.iter().any(|(e, _)| Some(*e) == c.ent)).count();
+    if without > 0 {
+        *notes.entry("note.certified_entities_without_artifact".into()).or_insert(0) += without as u64;
+    }
+    for (c, what) in fails {
+        sink.sfail(idx, &c, &what, &req);
+    }
+}
+
 #[tokio::main(flavor = "multi_thread", worker_threads = 4)]
 async fn main() {
     let args = Args::parse();
@@ -120,89 +207,38 @@ async fn main() {
                         }
                     }
                 }
-                let certs_at_crash = g.w.last_cert_count;
-                // the process stops and is started again on the same database
-                g.w.restart().await;
-                // continuation: productive rounds, a new beacon, more rounds
-                for _ in 0..3 {
+                continue_and_judge(&mut g, &mut sink, &mut notes, p, fired, interrupted, "").await;
+            }
+        }
+    }
+    // ---- the default configuration: only the stake distribution is signed, ONE round per epoch. A round lost for
+    // good is then the only certificate of its epoch: the next epoch must not end in an epoch gap.
+    for h in 0..(if args.thorough() { 3 } else { 1 }) {
+        for p in 0..6usize.min(CRASH_POINTS.len()) {
+            if !sink.wanted() {
+                sink.skip();
+                continue;
+            }
+            let mut rng = Rng::new(args.seed.wrapping_mul(5_000_011).wrapping_add(h as u64));
+            let cfg = HistoryCfg { n_signers: 3 + h, k: [5u64, 40, 70][h % 3], m: 100, events: 0, with_csd: false, restarts: true, jumps: false, sparse_regs: false };
+            let name = format!("c15_{}_msd_{}_{}", args.seed, h, p);
+            let mut g = Gen::with_discs(&name, &cfg, &[mithril_common::entities::SignedEntityTypeDiscriminants::MithrilStakeDistribution]).await;
+            bootstrap(&mut g, &mut rng).await;
+            let mut fired = false;
+            let mut interrupted: Option<usize> = None;
+            for _ in 0..8 {
+                if g.w.tester.runtime.state_label() != "signing" {
                     g.w.tick().await;
+                    continue;
                 }
-                for round in 0..3 {
-                    for _ in 0..5 {
-                        g.drive().await;
-                    }
-                    if round < 2 {
-                        g.w.immutable_up().await;
-                    }
-                }
-                // … and an epoch change: everybody registers for the next key, the epoch moves, two more rounds. The
-                // aggregator must certify in the new epoch without manual repair (a round lost for good in the
-                // interrupted epoch shows up here as an epoch gap at the latest).
-                let certs_before_epoch_change = g.w.last_cert_count;
-                let e_now = g.w.time_point().await.epoch.0;
-                for q in 0..g.w.n() {
-                    g.w.register(q, e_now + 1).await;
-                }
-                g.w.epoch_up(1).await;
-                for _ in 0..3 {
-                    g.w.tick().await;
-                }
-                for _ in 0..2 {
-                    for _ in 0..5 {
-                        g.drive().await;
-                    }
-                }
-                let certs_after_epoch_change = g.w.last_cert_count;
-                g.w.check_store("after crash, restart and continuation").await;
-                let tag = format!("{}{}", CRASH_POINTS[p], if fired { "" } else { ":not-fired" });
-                let req = g.w.request("c15.run");
-                let idx = sink.case(&tag, &req, &g.w.observation());
-                let healthy = !matches!(g.w.tester.runtime.state_label(), "blocked-epoch-gap" | "blocked-no-genesis");
-                let mut fails: Vec<(String, String)> = vec![];
-                for (c, what) in &g.w.sfails {
-                    if c == "double-certificate" {
-                        // precise classification of the known observation
-                        let is_interrupted = interrupted.map(|e| what.starts_with(&format!("entity {} ", e))).unwrap_or(false);
-                        if fired && p == 1 && is_interrupted {
-                            *notes.entry("note.double_certificate_after_crash_between_insert_and_flag".into()).or_insert(0) += 1;
-                            continue;
-                        }
-                    }
-                    fails.push((c.clone(), what.clone()));
-                }
-                if fired {
-                    // the interrupted round is completed or superseded
-                    if let Some(e) = interrupted {
-                        let d = g.w.last_dump.clone();
-                        let disc = mithril_common::entities::SignedEntityTypeDiscriminants::from(&g.w.entities[e]);
-                        let completed = d.certs.iter().any(|c| c.ent == Some(e));
-                        let superseded = d.certs.iter().any(|c| c.ent.map(|x| x > e && mithril_common::entities::SignedEntityTypeDiscriminants::from(&g.w.entities[x]) == disc).unwrap_or(false));
-                        if !completed && !superseded {
-                            fails.push(("round-lost".into(), format!("entity {} ({:?}), interrupted at {}, is neither certified nor superseded by a later certified beacon of its type after restart, three productive rounds, an epoch change and two more rounds", e, g.w.entities[e], CRASH_POINTS[p])));
-                        }
-                    }
-                    if !healthy {
-                        fails.push(("blocked-after-crash".into(), format!("after the crash at {}, restart and an epoch change the aggregator is in state {}", CRASH_POINTS[p], g.w.tester.runtime.state_label())));
-                    } else if certs_after_epoch_change <= certs_before_epoch_change {
-                        fails.push(("no-progress".into(), format!("no certificate was produced in the epoch following the crash at {} ({} certificates before and after the epoch change)", CRASH_POINTS[p], certs_before_epoch_change)));
-                    }
-                }
-                if healthy && fired && g.w.last_cert_count <= certs_at_crash {
-                    fails.push(("no-progress".into(), format!("no certificate was produced after the crash at {} and restart ({} certificates before and after the continuation)", CRASH_POINTS[p], certs_at_crash)));
-                }
-                if fired {
-                    *notes.entry(format!("fired.{}", CRASH_POINTS[p])).or_insert(0) += 1;
-                }
-                // certified entities without artifact (not a clause of C15; recorded)
-                let d = g.w.last_dump.clone();
-                let without = d.certs.iter().filter(|c| c.ent.is_some() && !d.ses.iter().any(|(e, _)| Some(*e) == c.ent)).count();
-                if without > 0 {
-                    *notes.entry("note.certified_entities_without_artifact".into()).or_insert(0) += without as u64;
-                }
-                for (c, what) in fails {
-                    sink.sfail(idx, &c, &what, &req);
+                g.sign_all_current(false).await;
+                interrupted = g.w.last_dump.oms.iter().rev().find(|o| !o.certified && !o.expired).map(|o| o.ent);
+                if g.w.crash_tick(p).await {
+                    fired = true;
+                    break;
                 }
             }
+            continue_and_judge(&mut g, &mut sink, &mut notes, p, fired, interrupted, "msd-only:").await;
         }
     }
     for (k, v) in notes {
